@@ -5,7 +5,7 @@ from ..suites_ops import K4Sem
 from ..suites_sql import K5Near, K5SemOpt, K5Twins
 
 PROPERTY = "C02"
-LEAN_MODULES = ["DAVerif.Props.C01core", "DAVerif.Props.C04merge", "DAVerif.Props.C01joins", "DAVerif.Props.C16full", "DAVerif.Props.C18"]
+LEAN_MODULES = ["DAVerif.Props.C01core", "DAVerif.Props.C04merge", "DAVerif.Props.C01joins", "DAVerif.Props.C16full", "DAVerif.Props.C01all", "DAVerif.Props.C16nested", "DAVerif.Props.C18"]
 THEOREMS = ["DAVerif." + t for t in (
     "C01_translation_engine_order", "C01_translation_sound_unary", "C01_translation_rows", "C01_translation_exact",
     "C01_final_order", "C01_translation_sound_reachable", "C01_reachable_sqlwf", "C08_sql_cols", "C09_sql_row_count",
@@ -18,7 +18,15 @@ THEOREMS = ["DAVerif." + t for t in (
     # natural_join (all types) and concat_rows (Props/C01joins.lean, Props/C16full.lean)
     "C01_joins_engine_order", "C01_translation_sound_joins", "C01_translation_sound_joins_generic", "C01_translation_sound_joins_sqlite",
     "C01_translation_exact_joins", "C01_translation_sound_joins_reachable", "C08_sql_cols_joins", "C16_sql_native", "C16_sqlite_right_as_left",
-    "C16_sqlite_full_scope", "C16_sqlite_full_partial", "C16_sqlite_full_nullkeys_necessary")]
+    "C16_sqlite_full_scope", "C16_sqlite_full_partial", "C16_sqlite_full_nullkeys_necessary",
+    # joins + concat_rows for EVERY configuration (extend merges on or off), Props/C01all.lean
+    "C01_engine_order_all", "C01_translation_sound_all", "C01_translation_sound_all_generic", "C01_translation_sound_all_sqlite",
+    "C01_translation_sound_all_reachable", "C01_translation_exact_all", "C08_sql_cols_all", "C09_sql_row_count_all",
+    "C04_merge_option_sound_all", "C04_merge_invariant_all",
+    # SQLite's emulated RIGHT / FULL joins anywhere in the pipeline, up to row order (Props/C16nested.lean)
+    "C01_translation_sound_nested", "C01_translation_sound_sqlite_five_joins", "C01_translation_sound_nested_reachable",
+    "C01_translation_sound_sqlite_right_anywhere", "C01_final_order_nested", "C08_sql_cols_nested", "C09_sql_row_count_nested",
+    "C16_nested_fullkeys_necessary")]
 ASSUMPTIONS = [
     "THERE IS NO PostgreSQL SERVER IN THE SANDBOX: the engine is assumed to implement `semSql` with EngineCfg.postgres (NULLs "
     "sort largest); PostgreSQL-only behaviour (integer division, numeric coercions, STDDEV_SAMP on one row, CAST rounding) is "
@@ -35,13 +43,14 @@ ASSUMPTIONS = [
     "exactly the places where the two concrete interpretations ThetaSql / Theta differ by design",
 ]
 NOT_PROVEN = [
-    "fragment of the kernel-checked translation theorem: table, extend (plain and windowed), project, select_rows, select/drop/"
-    "rename/map_columns, order_rows, with the extend merge on or off (Props/C04merge.lean); natural_join (every type the dialect renders "
-    "natively; SQLite's emulated RIGHT / FULL join only at the root of the pipeline, FULL under the null-free-keys guard whose "
-    "necessity is proved = known finding D19) and concat_rows (a labelled side must not end in a limit-less order_rows) are proved "
-    "with extend merges off (Props/C01joins, Props/C16full); the combination joins + merges is covered by correspondence + oracle",
+    "the kernel-checked translation theorem covers every operator except convert_records: table, extend (plain and windowed), project, "
+    "select_rows, select/drop/rename/map_columns, order_rows, natural_join (all five SQL types; SQLite's emulated RIGHT / FULL "
+    "join anywhere in the pipeline up to row order, FULL under the null-free-keys guard whose necessity is proved = known finding "
+    "D19), concat_rows, for every setting of the extend merge (Props/C01core, C04merge, C01joins, C16full, C01all, C16nested). "
+    "Standing side conditions: a labelled concat side must not end in a limit-less order_rows (LabelSidesPlain), jointype 'outer' "
+    "is not a SQL join type",
     "convert_records (record transforms are abstract in the executor model): oracle only",
-    "text rendering / SQLite's parser: executed, not modelled",
+    "text rendering / the engine's parser: executed, not modelled",
 ]
 LEVEL_TEXT = ("Kernel-checked: for every pipeline of the unary fragment, every requested column set and every environment, the "
               "NearSQL tree the translation builds evaluates (under the modelled SQL engine semantics) to the reference "
@@ -53,7 +62,7 @@ LEVEL_TEXT = ("Kernel-checked: for every pipeline of the unary fragment, every r
               "compares Pandas with the PostgreSQL-dialect SQL executed on the stand-in engine. Labelled partial: the observation point 'a real PostgreSQL 16 server' is unreachable here.")
 LEVEL_NOTE = ("Trusted: Lean kernel (+leanchecker in the thorough tier); axioms propext/Classical.choice/Quot.sound; the hand-written "
               "models sem / toNearSql / semSql (validated by k4_sem, k5_near, k5_sem on every run); SQLite's evaluator as modelled; "
-              "convert_records, nested emulated RIGHT/FULL joins on SQLite and joins together with extend merges are outside the present theorem (correspondence + oracle).")
+              "convert_records is outside the present theorem (correspondence + oracle).")
 RULE = ("random type-directed pipelines over catalogue methods supported by Pandas and SQLite (pipes.gen_case) on random small "
         "tables with nulls, duplicates, ties and empty tables; each case: real NearSQL structure vs model (k5_near), real SQL "
         "executed on SQLite vs model semantics (k5_sem), Pandas vs model (k4_sem), and oracle_C01 (Pandas result vs SQLite result "
